@@ -26,7 +26,13 @@ def _fn_with(**fields):
 
 
 def register(R):
-  _c18.register(R)          # TreeMapView contracts (proved under C18) + the heap spec functions
+  _c18.register(R)          # TreeMapView contracts + the heap spec functions
+  # tree.py is anchored by this property too: its contracts are re-verified by this check (a change of the key
+  # dispatch or of the copy-on-write recursion fails here as well as under C18)
+  for cs in R.contracts.values():
+    for c_ in cs:
+      if 'C18' in c_.props and P not in c_.props:
+        c_.props.append(P)
   R.bounded_checks.pop('C18', None)
   c18_trusted = R.trusted.pop('C18', [])
   R.cls('TreeFn', dict(input_keys='tuple[]', output_keys='tuple[]', masks='tuple[]', input_argkeys='tuple[]',
@@ -236,6 +242,7 @@ def register(R):
   R.bounded_checks[P] = [
       ('bounded_operator_chains', 'all chains of <=3 operators from 11 (select/apply/assign/filter/sink; tuple, kwargs, nested-path, SKIP keys), fused and as named stages, vs a reference interpreter; input records untouched; sinks see every record once and are closed once'),
       ('bounded_chain_api', 'TreeTransform.chain: fused (same name) and chained (different names) pairs route like the operator sequence'),
+      ('bounded_reserved_names', "columns literally named 'SELF' / 'SKIP' are ordinary columns for select/apply/assign/filter"),
       ('bounded_sink_on_failure', 'an operator fails at each record: the error surfaces and every sink is closed exactly once'),
       ('bounded_filter_skip', 'filter under error skipping: a failing predicate drops only its record, verdicts stay aligned'),
       ('bounded_key_validation', 'invalid key combinations are rejected at build time, valid ones accepted'),
